@@ -22,6 +22,11 @@ fn main() {
             };
             match prop.as_str() {
                 "C01" | "C07" | "C16" => smlmc::e2::run(&prop, tier),
+                "C02" => smlmc::e1c::run_c02(tier),
+                "C05" => smlmc::e1c::run_c05_c17("C05", tier),
+                "C17" => smlmc::e1c::run_c05_c17("C17", tier),
+                "C08" => smlmc::e1c::run_c08(tier),
+                "C14" => smlmc::e1c::run_c14(tier),
                 _ => machinery(&format!("no check registered for {}", prop)),
             }
         }
@@ -30,9 +35,11 @@ fn main() {
             let txt = std::fs::read_to_string(&path).unwrap_or_else(|e| machinery(&format!("{}: {}", path, e)));
             let j = smlmc::json::parse(&txt).unwrap_or_else(|e| machinery(&format!("{}: {}", path, e)));
             let case = j.get("case").cloned().unwrap_or_else(|| machinery("replay file has no case"));
+            smlmc::e1::VERBOSE.store(true, std::sync::atomic::Ordering::Relaxed);
             let class = j.get("class").and_then(|c| c.as_str()).unwrap_or("").to_string();
             let vs = match case.get("engine").and_then(|e| e.as_str()) {
                 Some("e2") => smlmc::e2::replay(&case),
+                Some("e1") => smlmc::e1::replay(&case),
                 _ => machinery("unknown engine in replay file"),
             };
             println!("replaying {} (recorded class: {})", path, class);
